@@ -8,15 +8,8 @@ import RuxModel.Go.Bytes
 -/
 namespace Rux
 
-/-- on the reversed string: length of a trailing '/' or white-space rune -/
-def slashOrSpaceAtHeadRev (s : Bytes) : Nat :=
-  match s with
-  | 0x2F :: _ => 1
-  | _ => Bytes.spaceAtHeadRev s
-
 /-- `strings.TrimRightFunc(s, c == '/' || unicode.IsSpace(c))` -/
-def trimRightSlashSpace (s : Bytes) : Bytes :=
-  (Bytes.dropSpaces slashOrSpaceAtHeadRev s.length s.reverse).reverse
+def trimRightSlashSpace (s : Bytes) : Bytes := Bytes.trimRightSpaceOrByte 0x2F s
 
 /-- `Router.formatPath` -/
 def fmtPath (strict : Bool) (path : Bytes) : Bytes :=
